@@ -16,6 +16,8 @@ import Proofs.IdManager
 import Proofs.PyAgree
 import Model.Sig
 import Proofs.Sig
+import Model.IdState
+import Proofs.IdState
 
 open Expr Engine
 
@@ -245,6 +247,128 @@ theorem comma_in_name_misread :
 not found") -/
 theorem quote_in_name_unreadable :
     (Sig.parseLine (α := Float) (fun _ => none) "<Beta>{12}\"b\"2\"[0],1,1".toList).isNone = true := by
+  decide
+
+
+/-! ### the numbering is a *state*: evaluating a sub-formula on its own (`prepare_ids=True`) -/
+
+/-- **Evaluating a sub-formula on its own puts the numbering back.**  Let the sub-formula `k` hold
+one manager on all its nodes (as it does after `IdManager([P, Q, …])` + `set_id_manager`, after
+`create_function` or inside a `BIOGEME` object, for every sub-formula of `P`, `Q`, …), a manager that
+knows the parameters and variables of `k`.  After `get_value_and_derivatives(prepare_ids=True)` on
+`k` — remember the manager, renumber `k` alone, evaluate, `set_id_manager(remembered)` — *every node
+of the DAG* holds the manager it held before; the only trace is one more manager in the heap. -/
+theorem alone_restores {α} [NumOps α] (st st1 st2 : IdState.St) (d : Dag α) (k : Nat)
+    (cols : List String) (hv : IdState.Valid st)
+    (hu : ∀ j ∈ IdState.reachOf d k, st.mgr j = st.mgr k)
+    (hkn : ∀ h t, st.mgr k = some h → st.tables[h]? = some t →
+      IdState.knows t d (IdState.reachOf d k) = true)
+    (ha : IdState.aloneAt st d k cols = .ok (st1, st2)) :
+    st2.mgr = st.mgr ∧ ∃ t', st2.tables = st.tables ++ [t'] := by
+  unfold IdState.aloneAt IdState.prepareAt IdState.persist at ha
+  have hR : [k].flatMap (IdState.reachOf d) = IdState.reachOf d k := by simp
+  rw [hR] at ha
+  dsimp only at ha
+  cases ht : IdState.tableFor d (IdState.reachOf d k) cols with
+  | error e => rw [ht] at ha; cases ha
+  | ok t' =>
+    rw [ht] at ha
+    simp only [Except.ok.injEq, Prod.mk.injEq] at ha
+    obtain ⟨h1, h2⟩ := ha
+    subst h1
+    cases hm : st.mgr k with
+    | none =>
+      rw [hm] at h2
+      simp only [IdState.restoreAt] at h2
+      subst h2
+      refine ⟨?_, t', rfl⟩
+      exact IdState.setMgr_back { st with tables := st.tables ++ [t'] } _ _ none _ rfl
+        (fun j hj => by rw [← hm]; exact hu j hj)
+    | some h =>
+      rw [hm] at h2
+      have hlt : h < st.tables.length := hv k h hm
+      have hget : (st.tables ++ [t'])[h]? = st.tables[h]? := List.getElem?_append_left hlt
+      have hsome : st.tables[h]? = some st.tables[h] := List.getElem?_eq_getElem hlt
+      have hknows := hkn h st.tables[h] hm hsome
+      simp only [IdState.restoreAt, IdState.setMgr, hget, hsome, hknows, ↓reduceIte] at h2
+      subst h2
+      refine ⟨?_, t', rfl⟩
+      exact IdState.setMgr_back { st with tables := st.tables ++ [t'] } _ _ (some h) _ rfl
+        (fun j hj => by rw [← hm]; exact hu j hj)
+
+/-- **… hence it changes the value of no formula**: whatever is evaluated afterwards in its own
+context (`prepare_ids=False`, the function made by `create_function`, `BIOGEME.simulate`) — the
+parents of the sub-formula, their other sub-formulas, any other formula — writes the same
+signature and returns the same number as before. -/
+theorem alone_neutral {α} [NumOps α] (st st1 st2 : IdState.St) (d : Dag α) (k : Nat)
+    (cols : List String) (hv : IdState.Valid st)
+    (hu : ∀ j ∈ IdState.reachOf d k, st.mgr j = st.mgr k)
+    (hkn : ∀ h t, st.mgr k = some h → st.tables[h]? = some t →
+      IdState.knows t d (IdState.reachOf d k) = true)
+    (ha : IdState.aloneAt st d k cols = .ok (st1, st2)) (r : Nat) (ee : EngEnv α) :
+    IdState.runSt st2 d r ee = IdState.runSt st d r ee ∧ IdState.sigSt st2 d r = IdState.sigSt st d r ∧
+    IdState.ctxAt st2 d r ee = IdState.ctxAt st d r ee := by
+  obtain ⟨hm, t', htab⟩ := alone_restores st st1 st2 d k cols hv hu hkn ha
+  have hst2 : st2 = { mgr := st2.mgr, tables := st.tables ++ [t'] } := by
+    cases st2; simp only at htab; simp [htab]
+  have htA : ∀ j, IdState.tableAt st2 j = IdState.tableAt st j := by
+    intro j; rw [hst2]; exact IdState.tableAt_append st hv _ [t'] hm j
+  have hrun := IdState.runSt_congr st st2 d htA r ee
+  refine ⟨hrun, IdState.sigSt_congr st st2 d htA r, ?_⟩
+  unfold IdState.ctxAt
+  rw [hm, hrun]
+
+/-- **A formula evaluated in a persistent context takes the engine path of `engine_correct`**: when
+all nodes of the sub-formula `k` refer to one id table that names the parameters and variables of
+the DAG, the evaluation in the current state is serialise → load → run with that table, hence the
+evaluation of the formula by name. -/
+theorem context_value {α} [NumOps α] (st : IdState.St) (d : Dag α) (hwf : WF d) (k : Nat)
+    (hk : k < d.length) (t : IdM.Table String)
+    (hu : ∀ j ∈ IdState.reachOf d k, IdState.tableAt st j = some t)
+    (hnames : namesOKB t d = true) (ee : EngEnv α) (hs : Sized t ee) :
+    IdState.runSt st d k ee = eval semEngine d (envOf t ee) k := by
+  rw [IdState.runSt_uniform st d k t hu hnames ee]
+  exact engine_correct t d hwf k hk hnames ee hs
+
+/-- the state of the witness below: `a*x + z*y` numbered as a whole (`a`, `z` free: `z` is
+parameter 1), then the product `z*y` renumbered alone (`z` is parameter 0) -/
+def seqDag : Dag Float :=
+  [ { kind := .beta, name := "a", value := 2.0 },
+    { kind := .var, name := "x", value := 0.0 },
+    { kind := .beta, name := "z", value := 0.5 },
+    { kind := .var, name := "y", value := 0.0 },
+    { kind := .times, children := [0, 1], value := 0.0 },
+    { kind := .times, children := [2, 3], value := 0.0 },
+    { kind := .plus, children := [4, 5], value := 0.0 } ]
+
+def slotsOf (o : Option (List (SigLine Float))) : Option (List (Nat × Nat × Nat)) :=
+  o.map fun ls => ls.map fun l => (l.id, l.uid, l.slot)
+
+def seqStates : Option (IdState.St × IdState.St × IdState.St) :=
+  match IdState.persist IdState.St.init seqDag [6] ["x", "y"] with
+  | .error _ => none
+  | .ok st =>
+    match IdState.aloneAt st seqDag 5 ["x", "y"] with
+    | .error _ => none
+    | .ok (st1, st2) => some (st, st2, IdState.restoreShallow st1 5 (st.mgr 5))
+
+/-- Why the remembered manager must be *propagated* (`set_id_manager`) and not only stored back in
+the evaluated node: on `a*x + z*y`, after `z*y` was evaluated alone, a restoration of the
+reference of the node `z*y` only leaves `z` with parameter id 0 — the id of `a` in the vector of
+the parent — whereas the propagated restoration gives back the signature of before. -/
+theorem shallow_restore_misnumbers :
+    (seqStates.map fun (st, st2, bad) =>
+      (slotsOf (IdState.sigSt st2 seqDag 6) == slotsOf (IdState.sigSt st seqDag 6),
+       (slotsOf (IdState.sigSt st seqDag 6)).map (·.lookup 2),
+       (slotsOf (IdState.sigSt bad seqDag 6)).map (·.lookup 2))) =
+    some (true, some (some (1, 1)), some (some (0, 0))) := by
+  decide +kernel
+
+/-- the hypotheses of `alone_restores` are satisfiable: the sub-formula `z*y` of the witness -/
+example : ∃ st st1 st2, IdState.persist IdState.St.init seqDag [6] ["x", "y"] = .ok st ∧
+    IdState.aloneAt st seqDag 5 ["x", "y"] = .ok (st1, st2) ∧
+    (∀ j ∈ IdState.reachOf seqDag 5, st.mgr j = st.mgr 5) ∧ st.mgr 5 = some 0 := by
+  refine ⟨_, _, _, rfl, rfl, ?_, by decide⟩
   decide
 
 /-! ### non-vacuity: a shared sub-formula, evaluated on the three paths -/
